@@ -454,6 +454,8 @@ def gen_wrappers(draw, tier="quick"):
         "len_exp": draw(st.one_of(st.just(0), st.integers(-9, 9))),
         # kriging requests of any size: (conditions, targets) up to ~1e7 right-hand-side entries in one call
         "big": draw(st.sampled_from([0, 0, 0, 0, 0, 1, 2, 3])),
+        # pairs of search directions: main axes, an obtuse pair whose axes are 30 degrees apart, reversed main axes
+        "dirs": draw(st.sampled_from(["eye", "obtuse", "obtuse", "neg"])),
     }
 
 
@@ -554,15 +556,23 @@ def check_wrappers(case, rec):
                         bwid = [-1.0, 1.5][(case["seed"] // 4) % 2]
                         if (case["seed"] // 8) % 2:
                             pos = np.round(pos)
-                        kw = dict(direction=np.eye(dim)[:2], angles_tol=a_tol)
+                        dn_ = np.eye(dim)[:2]
+                        if case.get("dirs") == "obtuse":
+                            # two directions enclosing an obtuse angle whose axes are 30 degrees apart (search cones overlap for tol >= 0.27)
+                            dn_ = np.zeros((2, dim))
+                            dn_[0, 0] = 1.0
+                            dn_[1, 0], dn_[1, 1] = -math.cos(math.pi / 6), math.sin(math.pi / 6)
+                            a_tol = [0.3, 0.5, 0.7, 1.0][case["seed"] % 4]
+                        elif case.get("dirs") == "neg":
+                            dn_ = -np.eye(dim)[:2]
+                        kw = dict(direction=dn_, angles_tol=a_tol)
                         if bwid > 0:
                             kw["bandwidth"] = bwid
                     r = lib(gs.vario_estimate, pos, fld if nf > 1 else fld[0], edges, return_counts=True, _tags=tags, **kw)
                     # the wrapper must return what the kernel returns for the same arrays
                     est = kbuild.load("estimator", "installed")
                     if kw:
-                        dn = np.eye(dim)[:2]
-                        from gstools.variogram.variogram import _separate_dirs_test
+                        dn = np.asarray(kw["direction"], dtype=float)
 
                         kv, kcnt = est.directional(fld, edges, pos, dn, a_tol, bwid, False, "m", None)
                     else:
